@@ -15,6 +15,7 @@ from lib import rwlock_rules as rw
 from lib.facts import Pos, const_val, expr_str, is_call, strip_casts, subexprs
 from lib.rules import comparison_of, natural_loops, same_value
 
+ANCHOR_SOURCES = ["lib/rwlock_rules.py"]
 LEVEL = "other"
 EXPLANATION = __doc__
 NOT_DECIDED = ["mutual exclusion and progress under all interleavings", "thread-to-slot mapping quality"]
